@@ -113,6 +113,30 @@ PROPS = {
         "assumptions": ["non-modular networks with at least one hidden node (the statement's domain)"],
         "expect_classes": {"depth": ["acyclic", "cyclic", "cap below the depth", "capped query hit the cap before the final query", "depth >= 3"]},
     },
+    "C15": {
+        "run": "^TestC15",
+        "shards": 12,
+        "technique": "property-based testing (rapid): write->read round trips of generated genomes (plain, YAML with modules), organisms (binary), populations (genome by genome and by species), fast-solver model files (differential outputs) and experiment records, compared under the harness's own genetic equality",
+        "level_text": "Generated-input search with round-trip oracles: arbitrary float64 weights and trait parameters, all 20 scalar activation names, nil traits, disabled and recurrent genes, modules in YAML; populations of a common lineage through Population.Write / WriteBySpecies and ReadPopulation; "
+                      "restored fast solvers must produce bit-identical outputs on generated load/step sequences; experiments must restore trials, generations, champions and the derived fitness/complexity/diversity/winner statistics.",
+        "level_note": "trusted: the harness's snapshot equality (M2); trait ids >= 1 (0 is the file syntax for 'no trait'), module link weights 1.0 (no weight syntax), champions non-nil and non-modular (the record stores the plain encoding, no presence marker)",
+        "rule": "genome: G-direct (>= 1 gene), half plain, half YAML with 0-2 modules; non-trivial = a weight that is not a float32 value plus a disabled or recurrent gene; organism/experiment: G-experiment records; population: 1-6 members of a G-family lineage; solver: DAG / cyclic / modular networks x 1-8 operations",
+        "assumptions": ["weights, trait parameters and fitness values are finite (NaN/Inf have no textual syntax here)"],
+        "expect_classes": {"genome": ["encoding:plain", "encoding:YAML", "disabled gene", "recurrent gene", "nil trait", "modular"], "population": ["written by species (with comments)", "written genome by genome"],
+                           "solver": ["modular solver", "solver with bias"], "experiment": ["solved trials"]},
+    },
+    "C20": {
+        "run": "^TestC20",
+        "shards": 12,
+        "technique": "property-based testing (rapid) with fault injection: generated (trials, generations, solved pattern, fault point, observer on/off, executor) scenarios; the recorded call trace of evaluator and observer is compared with a protocol model",
+        "level_text": "Generated-input search over run scenarios incl. injected evaluator errors and context cancellation at every (trial, generation) point: the harness's evaluator/observer record every call with the identity of the population and its organisms; "
+                      "an undisturbed run must reproduce the model's trace exactly, a disturbed run must reproduce it up to the fault, evaluate nothing afterwards, repeat no notification and return the fault to the caller.",
+        "level_note": "trusted: the 25-line protocol model; the harness evaluator honours the implicit preconditions of every shipped evaluator (finite non-negative fitness for all organisms, a champion on solved generations)",
+        "rule": "1-5 trials x 1-8 generations, per trial a solved generation or none, fault none/error/cancel at a generated point, observer present 3/4, Trials nil or pre-sized, sequential or parallel executor, population 3-8; "
+                "non-trivial = a trial solved before its last generation or a fault after a completed trial; distinct by the whole scenario tuple",
+        "assumptions": ["after a fault only 'no further evaluation, no repeated notification, fault returned' is required; a cancellation in the very last planned generation may return nil"],
+        "expect_classes": {"protocol": ["fault:none", "fault:error", "fault:cancel", "with observer", "without observer", "parallel executor", "trial solved before the last generation", "fault after a completed trial"]},
+    },
 }
 
 # properties that the technique can not decide (none): id -> reason
